@@ -218,3 +218,18 @@ META["C19"] = {
         "bitwise comparison: both sides are the same library function on arguments that must be equal",
     ],
 }
+
+META["C12"] = {
+    "level": "model_checking",
+    "parts": 3,
+    "tiers": {
+        "quick": {"shards": 3, "deadline_s": 300,
+                  "bounds": "A: every calls list of length 0..4 over {2,5} x user callback answering false at every position or never x start from an empty or a 2-result checkpoint x serial / MPI shim with 1..3 ranks (a third of the lists); B: built-in callback, 4 modes x targets {0,1e-3,0.05,0.3,1} and +-1% around every relative error the run actually reaches x integrands {0, 1, +-1 alternating, NaN, NaN sometimes, linear} x 5 iterations, serial and MPI shim with 2 ranks; PLAIN, VEGAS, MULTI-CHANNEL; 3 types"},
+        "thorough": {"shards": 3, "deadline_s": 600, "bounds": "same as quick (the enumeration is complete at this bound)"},
+    },
+    "rule": "every environment answer sequence of the callback (the position at which it says stop) is enumerated; states = runs judged, transitions = callback invocations judged; distinct_nontrivial = distinct cases with at least two requested iterations (A) plus all built-in cases (B)",
+    "binding": "the integrators, callbacks and mpi_callback of the tree under test are executed; the reference stop index is computed in long double from the results of the same run with a never-stopping user callback",
+    "assumptions": [
+        "a combined relative error within 1e-5 relative of the target, or an undefined combination (zero variance, no contributing result) with a positive target, leaves the decision open and both answers are accepted; with target zero the run must always perform all iterations",
+    ],
+}
